@@ -129,7 +129,13 @@ def run(tier, seed, findings):
     for name in SCHEMAS:
         S, O = D.schema(name)
         docs = D.corpus(name, 12 if tier == "quick" else 40, seed)
-        pool = D.slice_pool(name, docs, rnd, 25 if tier == "quick" else 80)
+        from . import ops as _ops
+
+        # slices "from the same or another document": their nodes off the open sides are schema-valid
+        # (the pool also holds deliberately wrong wrappers for C01 / C11; a closed slice carrying an
+        # invalid node is outside this property's quantifier: replace validates the nodes it rebuilds,
+        # not the ones it is handed)
+        pool = [s_ for s_ in D.slice_pool(name, docs, rnd, 25 if tier == "quick" else 80) if _ops.slice_ok(O, s_)]
         sel = docs[:]
         rnd.shuffle(sel)
         for doc in sel[:n_docs]:
